@@ -256,7 +256,8 @@ def _run(mname: str, eng: int, evs: List[str], skip: Optional[int] = None, obser
 
     def snap(it: Any, raised: Optional[str]) -> None:
         out.append({"cfg": sorted(n.id for n in it._active_state_nodes), "rec": list(rec), "raised": raised,
-                    "calls": list(calls), "ctx": dict(it.context), "status": it.status, "errors": list(plug.errors)})
+                    "calls": list(calls), "ctx": dict(it.context), "status": it.status, "errors": list(plug.errors),
+                    "depth": getattr(it, "_action_depth", 0)})
         del rec[:]
         del calls[:]
         del plug.errors[:]
@@ -401,6 +402,10 @@ def action_fault(f0: bool, f1: bool, f2: bool, f3: bool, f4: bool, f5: bool, f6:
         if got_all != want:
             _note(f"faults {sites.injected}: markers {got_all}, expected {want}")
             ok = False
+    if ok and any(s_["depth"] for s_ in got if s_):
+        _note(f"faults {sites.injected}: the nested-action depth counter is {[s_['depth'] for s_ in got if s_]} at rest (a contained fault must not leave a residue: "
+              "after MAX_ACTION_DEPTH such faults every later expansion would be refused)")
+        ok = False
     if ok:
         nerr = sum(len(s["errors"]) for s in got)
         if nerr != len(sites.injected):
@@ -409,12 +414,27 @@ def action_fault(f0: bool, f1: bool, f2: bool, f3: bool, f4: bool, f5: bool, f6:
     return verdict(ok, nontrivial=len(sites.injected) > 0)
 
 
-def observer_fault(kind: int, at: int) -> bool:
+def observer_fault(kind: int, at: int, form: int = 0) -> bool:
     """
     pre: 0 <= at < 24
     pre: gate('observer_fault', kind=kind, at=at)
     post: _
     """
+    import functools
+
+    lf = pick(form, 3)     # the raising subscriber / listener is a plain function, a functools.partial or a callable instance
+
+    def shaped(fn: Any) -> Any:
+        if lf == 0:
+            return fn
+        if lf == 1:
+            return functools.partial(lambda _tag, x: fn(x), "tag")
+
+        class Callable_:
+            def __call__(self, x: Any) -> Any:
+                return fn(x)
+        return Callable_()
+
     eng = P["eng"]
     evs = P["evs"]
     CTL["broken"] = None
@@ -458,10 +478,10 @@ def observer_fault(kind: int, at: int) -> bool:
         if k == 0:
             it.use(Noisy())
         elif k == 1:
-            it.subscribe(lambda _i: maybe())
+            it.subscribe(shaped(lambda _i: maybe()))
         else:
-            it.on("NOTE", lambda _e: maybe())
-            it.on("*", lambda _e: maybe())
+            it.on("NOTE", shaped(lambda _e: maybe()))
+            it.on("*", shaped(lambda _e: maybe()))
         healthy(it, "bad")
 
     def attach_good(it: Any) -> None:
